@@ -22,6 +22,8 @@ def configs(tier):
         return [
             C("csr", "elem", (0, 3), z, (0, 3), pal=1), C("csr", "elem", (0, 3), z, (0, 3), pal=2),
             C("csr", "elem", (4, 4), z, (3, 3), pal=2, maxrow=2), C("csr", "elem", (0, 3), z, (0, 3), pal=2, arrayless=True),
+            C("csr", "elem", (1, 3), z, (1, 3), pal=3), C("csr", "elem", (1, 3), z, (1, 3), pal=4),
+            C("bcsr", "elem", (1, 2), z, (1, 2), bh=2, bw=3, pal=3), C("bcsr", "elem", (1, 2), z, (1, 2), bh=3, bw=2, pal=4),
             C("csr", "mm", (0, 1), (0, 1), (0, 1), pal=1), C("csr", "mm", (1, 2), (1, 2), (1, 2), pal=1, arrayless=True),
             C("csr", "mm", (1, 1), (3, 3), (3, 3), pal=1), C("csr", "mm", (1, 1), (2, 2), (3, 3), pal=2, nalpha=3),
             C("csr", "mm", (2, 2), (2, 2), (2, 2), pal=1, nalpha=3), C("csr", "mm", (2, 2), (2, 2), (3, 3), pal=2, maxrow=2),
@@ -37,6 +39,8 @@ def configs(tier):
     return [
         C("csr", "elem", (0, 3), z, (0, 3), pal=1), C("csr", "elem", (0, 2), z, (0, 3), pal=2),
         C("csr", "elem", (0, 2), z, (0, 2), pal=2, arrayless=True),
+        C("csr", "elem", (1, 2), z, (1, 3), pal=3), C("csr", "elem", (1, 2), z, (1, 3), pal=4),
+        C("bcsr", "elem", (1, 2), z, (1, 1), bh=2, bw=3, pal=3), C("bcsr", "elem", (1, 1), z, (1, 2), bh=2, bw=2, pal=4),
         C("csr", "mm", (0, 1), (0, 1), (0, 1), pal=1), C("csr", "mm", (1, 1), (1, 2), (1, 2), pal=1, arrayless=True),
         C("csr", "mm", (1, 1), (2, 2), (3, 3), pal=1), C("csr", "mm", (2, 2), (2, 2), (2, 2), pal=2),
         C("csr", "mm", (1, 1), (3, 3), (2, 2), pal=1),
